@@ -33,19 +33,61 @@ def judge(job, data, f, stats):
     return None
 
 
+def knx16_ref(v):
+    """KNX DPT 9: (0.01*m)*2^e, m = 12 bit two's complement (sign in bit 15, 11 bits mantissa), e = bits 11..14; 0x7fff invalid"""
+    import struct
+    if v == 0x7fff:
+        return None
+    e = (v >> 11) & 0xf
+    m = v & 0x7ff
+    if v & 0x8000:
+        m -= 0x800
+    return struct.unpack('f', struct.pack('f', m * (2 ** e) * 0.01))[0]
+
+
+def knx16_check(c, exe):
+    """all 65536 patterns through uint16ToFloat (the KNX 16 bit float helper of datatype.cpp) against the DPT 9 definition"""
+    import struct, math
+    from codec_common import _run_server
+    rc, out, err = _run_server(exe, ['K16\t0\t65536'], [])
+    if rc != 0:
+        for key, summ in classify_sanitizer(err)[:3] or [('crash:knx16:%s' % rc, 'abnormal exit')]:
+            c.violation(key, summ, err[-4000:])
+        return 0
+    line = [l for l in out.split('\n') if l.startswith('k\t')][0][2:]
+    items = [x for x in line.split(';') if x]
+    bad = 0
+    for v, it in enumerate(items):
+        val, re_hex, re_val = it.split(':')
+        exp = knx16_ref(v)
+        got = float(val)
+        if exp is None:
+            if not math.isnan(got) and bad < 20:
+                c.violation('decode:KNX16', 'uint16ToFloat(0x%04x) = %s, expected NaN (invalid)' % (v, val)); bad += 1
+            continue
+        if struct.pack('f', got) != struct.pack('f', exp) and not (got == 0 and exp == 0):
+            if bad < 20:
+                c.violation('decode:KNX16', 'uint16ToFloat(0x%04x) = %s, expected %.9g' % (v, val, exp))
+            bad += 1
+    return len(items)
+
+
 def main():
     c = Check('C05')
     exe = build_harness('asan', 'codec_server', ['codec_server.cpp'])
     rng = random.Random(c.seed)
     jobs = build_jobs(rng, c.thorough)
     tot = run_jobs(c, exe, jobs, 'judge', 'c05')
+    knx = knx16_check(c, exe)
+    tot['evaluations'] = tot.get('evaluations', 0) + knx
+    tot['nontrivial'] = tot.get('nontrivial', 0) + knx
     c.coverage.update({
         'evaluations': int(tot.get('evaluations', 0)),
         'distinct_nontrivial': int(tot.get('nontrivial', 0)),
         'rule': 'every numeric/BCD/HCD/bit/time type of 1 or 2 bytes: all 256/65536 raw patterns per (type, divisor, format); '
                 'BDA/BDZ/HDA(3,4 byte): all 36525 days 2000-2099 + random invalid; DAY all 65536; DTM every day 2009-2099 + random; '
                 'BTI/HTI/VTI all (thorough) or every 7th second + random invalid; 3-/4-byte numerics: boundaries + random; strings '
-                'of every length 1..31; TEM_P all 65536 in both parts. Patterns are distinct per job by construction; '
+                'of every length 1..31; TEM_P all 65536 in both parts; all 65536 patterns of the KNX 16 bit float helper uint16ToFloat. Patterns are distinct per job by construction; '
                 'non-trivial = judged pattern that is not all-zero and whose expectation is a value (not null, not error)',
         'exhaustive': True,
         'judged': int(tot.get('judged', 0)), 'unjudged_ambiguous': int(tot.get('unjudged', 0)),
